@@ -272,15 +272,35 @@ def rule_args_info_fresh(ctx, rep, rule_id="R-ARGS-INFO-FRESH"):
                 n += 1
                 a = c.args[1]
                 v = r.expand(a)
-                shared = False
-                if isinstance(v, ast.Attribute) and isinstance(v.value, ast.Name) and v.value.id in ("self", "cls"):
-                    shared = fn.cls is not None and ctx.prog.lookup_attr(fn.cls.qname, v.attr) is not None
-                elif isinstance(v, ast.Name) and v.id in fn.module.constants and v.id not in fn.params():
-                    r.single_assignments()
-                    shared = v.id not in r._assign_counts
-                elif isinstance(v, ast.Attribute):
-                    q = ctx.prog.resolve_expr_name(fn.module, v)
-                    shared = bool(q) and (q.rpartition(".")[0] in ctx.prog.classes or q.rpartition(".")[0] in ctx.prog.modules)
+
+                def is_shared(f, rr, v, depth=2) -> bool:
+                    from ..prov import is_cached
+
+                    if isinstance(v, ast.Attribute) and isinstance(v.value, ast.Name) and v.value.id in ("self", "cls"):
+                        if f.cls is None:
+                            return False
+                        if ctx.prog.lookup_attr(f.cls.qname, v.attr) is not None:
+                            return True
+                        m_ = ctx.prog.lookup_method(f.cls.qname, v.attr)
+                        return m_ is not None and is_cached(m_)  # a memoised property hands out the same list every time
+                    if isinstance(v, ast.Name) and v.id in f.module.constants and v.id not in f.params():
+                        rr.single_assignments()
+                        return v.id not in rr._assign_counts
+                    if isinstance(v, ast.Attribute):
+                        q = ctx.prog.resolve_expr_name(f.module, v)
+                        return bool(q) and (q.rpartition(".")[0] in ctx.prog.classes or q.rpartition(".")[0] in ctx.prog.modules)
+                    if isinstance(v, ast.Call) and depth > 0:
+                        # a helper that chooses the list: shared if any of its answers is
+                        for t in rr.resolve_call(v):
+                            if isinstance(t, FuncInfo):
+                                tr = ctx.resolver(t)
+                                for rt in [x for x in walk_no_nested(t.node) if isinstance(x, ast.Return) and x.value is not None]:
+                                    rv = tr.expand(rt.value) if isinstance(rt.value, ast.Name) else rt.value
+                                    if is_shared(t, tr, rv, depth - 1):
+                                        return True
+                    return False
+
+                shared = is_shared(fn, r, v)
                 rep.check(rule_id, fn.qname, fn.loc(c), not (shared and consumes), f"args_info:{unparse(a)[:30]}",
                           f"`{unparse(c)[:60]}` passes the shared list `{unparse(v)[:40]}` to replace_args, which deletes matched entries from it: "
                           "after the first call site that already has the keyword, the entry is gone for every later call in the process")
